@@ -37,9 +37,10 @@ def v2(tc, slot, logger=0, mid=None, name=None, am=0):
     return fr(tc, P.MT_CONNECT_V2, P.p_connect_v2(logger, 0, am, mid, 4000 + IDS[slot], name), src_mod_id=mid)
 
 
-def setup_events(tc) -> List[List]:
+def setup_events(tc, monitor_all: bool = False) -> List[List]:
     ev = [["conn", "M"], ev_send("M", fr(tc, P.MT_CONNECT, P.p_connect(), src_mod_id=IDS["M"])), ["settle"]]
-    for t in (P.MT_CLIENT_CLOSED, P.MT_FAILED_MESSAGE, P.MT_CLIENT_INFO):
+    # (monitor_all: nobody names CLIENT_CLOSED - the monitor, like every other observer, listens through ALL_MESSAGE_TYPES only)
+    for t in ((ALL,) if monitor_all else (P.MT_CLIENT_CLOSED, P.MT_FAILED_MESSAGE, P.MT_CLIENT_INFO)):
         ev.append(ev_send("M", fr(tc, P.MT_SUBSCRIBE, P.p_sub(t), src_mod_id=IDS["M"])))
     ev += [["settle"], ["conn", "S"], ev_send("S", v2(tc, "S") + fr(tc, P.MT_CONNECT, P.p_connect(), src_mod_id=IDS["S"])),
            ["settle"], ev_send("S", fr(tc, P.MT_SUBSCRIBE, P.p_sub(T1), src_mod_id=IDS["S"])), ["settle"],
@@ -223,6 +224,10 @@ def scenarios(tier: str) -> List[Dict[str, Any]]:
     for sc in list(out):
         if len(sc["leavers"]) == 1 and sc["leavers"][0][0] == "D" and "nonwritable" not in sc and "[:" not in sc["label"] and not sc.get("twin"):
             out.append(dict(sc, nonwritable=["D"], label=sc["label"] + "/leaver-not-writable"))
+    # nobody subscribes to CLIENT_CLOSED by its number: the observers hear of departures through ALL_MESSAGE_TYPES
+    for sc in list(out):
+        if len(sc["leavers"]) == 1 and sc["leavers"][0][0] == "D" and "nonwritable" not in sc and "[:" not in sc["label"] and not sc.get("twin"):
+            out.append(dict(sc, monitor_all=True, label=sc["label"] + "/observers-by-ALL-only"))
     return out
 
 
@@ -238,7 +243,7 @@ def execute(args) -> Dict[str, Any]:
     probs: List[Dict[str, Any]] = []
     nready = 0
     try:
-        for ev in setup_events(tc) + sc["pre"]:
+        for ev in setup_events(tc, bool(sc.get("monitor_all"))) + sc["pre"]:
             env.apply(ev)
         closed_before = sum(1 for k in env.received["M"] if k[0] == "closed")
         for ev in sc["leave"]:
